@@ -297,9 +297,10 @@ def _task(mode, with_bond, monotone=False):
 # second half of svd_truncated: removal of emptied sectors, slicing of the factors, bond tables
 
 
-def _slicing_task():
-    """svd_truncated(cutoff > 0, absorb=None) from the per-sector counts to the return: which sectors the three
-    results keep, how the blocks are sliced, the new bond table on both factors -- for any number of sectors."""
+def _slicing_task(absorb=None):
+    """svd_truncated(cutoff > 0) from the per-sector counts to the return: which sectors the three results
+    keep, how the blocks are sliced, the new bond table on both factors, and which factor absorbs which
+    power of the singular values -- for any number of sectors."""
     from pyvc.builtins_model import LoopSpec, tuple_type
     from pyvc.core import SymList, TBool
 
@@ -311,7 +312,15 @@ def _slicing_task():
     sliceV = z3.Function("keep_first_rows", MBLK.sort(), z3.IntSort(), MBLK.sort())
     sliceS = z3.Function("keep_first_values", VBLK.sort(), z3.IntSort(), VBLK.sort())
     vlen = z3.Function("number_of_values", VBLK.sort(), z3.IntSort())
+    scale_cols = z3.Function("scale_columns_by", MBLK.sort(), VBLK.sort(), MBLK.sort())  # b * v.reshape((1, -1))
+    scale_rows = z3.Function("scale_rows_by", MBLK.sort(), VBLK.sort(), MBLK.sort())  # b * v.reshape((-1, 1))
+    sqrtv = z3.Function("elementwise_sqrt", VBLK.sort(), VBLK.sort())
+    BC = TOpaque("BroadcastVector")
+    as_row = z3.Function("as_row", VBLK.sort(), BC.sort())
+    as_col = z3.Function("as_column", VBLK.sort(), BC.sort())
     Q2 = "linalg.svd_truncated"
+    aname = {None: "None", -1: "left", 1: "right", 0: "both"}.get(absorb, str(absorb)) if not isinstance(absorb, str) else "str_" + absorb
+    side = {-1: "left", "left": "left", 1: "right", "right": "right", 0: "both", "both": "both"}.get(absorb)
 
     def axioms():
         b, n, v, t = z3.Const("b!sl", MBLK.sort()), z3.Int("n!sl"), z3.Const("v!sl", VBLK.sort()), z3.Real("t!sl")
@@ -354,7 +363,22 @@ def _slicing_task():
         U, VH = SymObj(cls, tag="U"), SymObj(cls, tag="VH")
         U.fields.update({"_blocks": ub, "_indices": (row_ix, bondU), "_symmetry": symo, "_charge": SV(ctx.fresh("cU", TInt), TInt)})
         VH.fields.update({"_blocks": vb, "_indices": (bondV, col_ix), "_symmetry": symo, "_charge": SV(z3.IntVal(0), TInt)})
-        U.fields["sectors"] = SymSeq(n, K, TUP2, "tuple")  # dict order made explicit (see A-order)
+        # U.sectors is read twice: before the slicing loop (dict order made explicit, see A-order) and, when the
+        # singular values are absorbed, after it (then the real property: the surviving keys in any order)
+        reads = []
+        sect_fget = it.get_class("block_core", "BlockBase").lookup("sectors")[0].fget
+
+        def sectors(it_, a, kw):
+            if a[0] is U and not reads:
+                reads.append(1)
+                return SymSeq(n, K, TUP2, "tuple")
+            del it_.summaries["block_core.BlockBase.sectors"]
+            try:
+                return it_.call(sect_fget, a)
+            finally:
+                it_.summaries["block_core.BlockBase.sectors"] = sectors
+
+        it.summaries["block_core.BlockBase.sectors"] = sectors
         s = SymObj(None, tag="s")
         s.fields["blocks"] = sb
         s.fields["to_dense"] = BuiltinVal("to_dense", lambda it_, a, kw: SymObj(None, tag="dense"))
@@ -366,7 +390,36 @@ def _slicing_task():
         ctx.assume(cutoff > 0)
         t = cutoff  # mode 1, no bond limit: the threshold is the cutoff (the threshold itself: tasks above)
         N = lambda q: CNTGE(z3.Select(S0[1], k1(K[q])), t)  # noqa: E731
-        it.externals["ar.do"] = lambda it_, a, kw: SymObj(None, tag="sorted") if a[0] == "sort" else (_ for _ in ()).throw(Unsupported(f"ar.do({a[0]!r})"))
+        def ar_do(it_, a, kw):
+            if a[0] == "sort":
+                return SymObj(None, tag="sorted")
+            if a[0] == "sqrt" and isinstance(a[1], SV) and a[1].ty == VBLK:
+                return SV(sqrtv(a[1].t), VBLK)
+            raise Unsupported(f"ar.do({a[0]!r})")
+
+        it.externals["ar.do"] = ar_do
+
+        def reshape(it_, obj, a, kw):
+            shp = a[0] if len(a) == 1 else tuple(a)
+            if shp == (1, -1):
+                return SV(as_row(obj.t), BC)
+            if shp == (-1, 1):
+                return SV(as_col(obj.t), BC)
+            raise Unsupported(f"reshape{shp}")
+
+        it.opaque_methods = {("SingularValuesOfSector", "reshape"): reshape}
+        vv = z3.Const("v!bc", VBLK.sort())
+
+        def binop_hook(it_, op, a, b):
+            if op is _ast.Mult and isinstance(a, SV) and a.ty == MBLK and isinstance(b, SV) and b.ty == BC:
+                # b is as_row(v) or as_column(v): recover v by the two injections
+                v = ctx.fresh("bcv", VBLK)
+                isrow = ctx.branch(z3.Exists([vv], b.t == as_row(vv)), "bcrow")
+                ctx.assume(b.t == (as_row(v) if isrow else as_col(v)))
+                return SV((scale_cols if isrow else scale_rows)(a.t, v), MBLK)
+            return None
+
+        it.binop_hook = binop_hook
         it.externals["ar.size"] = lambda it_, a, kw: SV(ctx.fresh("total", TInt), TInt)
 
         def comp_hook(it_, e, env, kind, it0):
@@ -431,6 +484,54 @@ def _slicing_task():
         # the first `for` statement of the function (comprehensions are not counted)
         it.loop_specs[(Q2, 0)] = LoopSpec(carried={"new_inner_chargemap": ("dict", TInt, TInt)}, cells=cells, invariant=inv)
         fn = it.module_lookup("linalg", "svd_truncated")
+        pw = (lambda v: sqrtv(v)) if side == "both" else (lambda v: v)
+
+        def cap(it_, env):
+            return {"U": (ub.has, ub.val), "V": (vb.has, vb.val), "S": (sb.has, sb.val)}
+
+        def inv2(it_, env, g):
+            U1, V1, S1 = g["pre"]["U"], g["pre"]["V"], g["pre"]["S"]
+            vis = g["vis"]
+            sval = lambda c_: z3.Select(S1[1], c_)  # noqa: E731
+            out = [
+                ("keys_fixed", z3.And(ub.has == U1[0], vb.has == V1[0], sb.has == S1[0], sb.val == S1[1])),
+            ]
+            if side in ("left", "both"):
+                out.append(("visited_U_blocks_scaled", z3.ForAll([key], z3.Implies(z3.Select(U1[0], key), z3.Select(ub.val, key) == z3.If(z3.Select(vis, key), scale_cols(z3.Select(U1[1], key), pw(sval(k1(key)))), z3.Select(U1[1], key))))))
+            else:
+                out.append(("U_blocks_untouched", ub.val == U1[1]))
+            if side in ("right", "both"):
+                out.append(("VH_blocks_of_visited_charges_scaled", z3.ForAll([key], z3.Implies(z3.Select(V1[0], key), z3.Select(vb.val, key) == z3.If(z3.Select(vis, K[posc(k1(key))]), scale_rows(z3.Select(V1[1], key), pw(sval(k1(key)))), z3.Select(V1[1], key))))))
+            else:
+                out.append(("VH_blocks_untouched", vb.val == V1[1]))
+            return out
+
+        if absorb is not None:
+            it.loop_specs[(Q2, 1)] = LoopSpec(carried={}, cells=cells, invariant=inv2, pre_capture=cap)
+            # injectivity of the two broadcasts (they are views of the same data)
+            v1, v2 = z3.Const("v1!bc", VBLK.sort()), z3.Const("v2!bc", VBLK.sort())
+            ctx.assume(z3.ForAll([v1, v2], z3.And(z3.Implies(as_row(v1) == as_row(v2), v1 == v2), z3.Implies(as_col(v1) == as_col(v2), v1 == v2), as_row(v1) != as_col(v2))))
+
+        def post_absorbed(r):
+            if not (isinstance(r, tuple) and len(r) == 3 and r[0] is U and r[1] is None and r[2] is VH):
+                return [("returns_U_None_VH", False)]
+            kept = lambda p: z3.And(inr(p), N(p) > 0)  # noqa: E731
+            sl_u = lambda key_: sliceU(z3.Select(U0[1], key_), N(pos(key_)))  # noqa: E731
+            sl_v = lambda key_: sliceV(z3.Select(V0[1], key_), N(posc(k1(key_))))  # noqa: E731
+            sl_s = lambda c_: sliceS(z3.Select(S0[1], c_), N(posc(c_)))  # noqa: E731
+            out = [
+                ("U_keeps_exactly_the_sectors_with_a_surviving_value", z3.ForAll([key], z3.Select(ub.has, key) == z3.And(z3.Select(U0[0], key), kept(pos(key))))),
+                ("VH_keeps_exactly_the_diagonal_sectors_of_surviving_charges", z3.ForAll([key], z3.Select(vb.has, key) == z3.And(z3.Select(V0[0], key), kept(posc(k1(key)))))),
+            ]
+            if side in ("left", "both"):
+                out.append(("every_U_block_is_the_sliced_block_with_columns_scaled_by_the_kept_values", z3.ForAll([key], z3.Implies(z3.Select(ub.has, key), z3.Select(ub.val, key) == scale_cols(sl_u(key), pw(sl_s(k1(key))))))))
+            else:
+                out.append(("U_blocks_only_sliced", z3.ForAll([key], z3.Implies(z3.Select(ub.has, key), z3.Select(ub.val, key) == sl_u(key)))))
+            if side in ("right", "both"):
+                out.append(("every_VH_block_is_the_sliced_block_with_rows_scaled_by_the_kept_values", z3.ForAll([key], z3.Implies(z3.Select(vb.has, key), z3.Select(vb.val, key) == scale_rows(sl_v(key), pw(sl_s(k1(key))))))))
+            else:
+                out.append(("VH_blocks_only_sliced", z3.ForAll([key], z3.Implies(z3.Select(vb.has, key), z3.Select(vb.val, key) == sl_v(key)))))
+            return out
 
         def post(r):
             if not (isinstance(r, tuple) and len(r) == 3 and r[0] is U and r[1] is s and r[2] is VH):
@@ -465,10 +566,16 @@ def _slicing_task():
             ]
             return out
 
-        check_call(it, "svd_truncated.slicing", fn, [x], {"cutoff": SV(cutoff, TReal), "cutoff_mode": 1, "max_bond": -1, "absorb": None, "renorm": 0}, post=post)
+        if absorb is None:
+            check_call(it, "svd_truncated.slicing", fn, [x], {"cutoff": SV(cutoff, TReal), "cutoff_mode": 1, "max_bond": -1, "absorb": None, "renorm": 0}, post=post)
+        elif side is None:
+            res, exc = check_call(it, f"svd_truncated.absorb_{aname}", fn, [x], {"cutoff": SV(cutoff, TReal), "cutoff_mode": 1, "max_bond": -1, "absorb": absorb, "renorm": 0}, raises={"ValueError": lambda it_: n >= 1})
+            ctx.oblige(f"svd_truncated.absorb_{aname}.unknown_absorb_value_raises_when_a_sector_survives", z3.BoolVal(exc == "ValueError") if exc else z3.BoolVal(True))
+        else:
+            check_call(it, f"svd_truncated.absorb_{aname}", fn, [x], {"cutoff": SV(cutoff, TReal), "cutoff_mode": 1, "max_bond": -1, "absorb": absorb, "renorm": 0}, post=post_absorbed)
 
     return Task(
-        "C13.svd_truncated.slicing_and_bond_tables",
+        "C13.svd_truncated.slicing_and_bond_tables" if absorb is None else f"C13.svd_truncated.absorb_{aname}",
         ["C13", "C01"],
         [Q2, "abelian_core.AbelianArray.modify", "abelian_core.BlockIndex.copy_with"],
         body,
@@ -477,11 +584,11 @@ def _slicing_task():
             "A-order: svd() fills U.blocks and s.blocks in the same loop, so U.sectors and s.blocks.values() are iterated in corresponding order (python dict insertion order); made explicit as a sequence of sectors",
             "post-state of svd(x) as proved in contracts/linalg_bonds.py (one block per column charge, shapes of the factors)",
             "A-numpy: b[:, :n], b[:n, :], v[:n] keep the first n columns / rows / values",
-            "absorb=None path; the three absorb variants are compared in the bounded tier",
+            "absorb: b * v.reshape((1, -1)) scales the columns, b * v.reshape((-1, 1)) the rows of b by v; that the three variants give the same product is numerics (bounded tier)",
         ],
         timeout_ms=30000,
     )
 
 
 def tasks():
-    return [_slicing_task()] + [_task(m, wb) for m in range(1, 7) for wb in (False, True)] + [_task(m, False, monotone=True) for m in range(1, 7)]
+    return [_slicing_task(a) for a in (None, -1, 1, 0, "left", "right", "both", 7)] + [_task(m, wb) for m in range(1, 7) for wb in (False, True)] + [_task(m, False, monotone=True) for m in range(1, 7)]
